@@ -11,13 +11,18 @@ func Register(reg0 func(id, level string, f func(*load.Prog, *report.Report))) {
 	// properties whose argument takes the generated primitives as trusted leaves also check that the primitives
 	// they reach are intact
 	reg := func(id, level string, f func(*load.Prog, *report.Report)) {
-		if _, ok := leafEntries[id]; !ok {
+		_, l1 := leafEntries[id]
+		_, l2 := stateEntries[id]
+		if !l1 && !l2 {
 			reg0(id, level, f)
 			return
 		}
 		reg0(id, level, func(p *load.Prog, r *report.Report) {
 			f(p, r)
-			leafIntegrity(p, r, id)
+			if l1 {
+				leafIntegrity(p, r, id)
+			}
+			stableGlobals(p, r, id)
 		})
 	}
 	reg("C01", "proof", C01)
